@@ -8,6 +8,8 @@ def drive : List String → String
   | v :: size :: dg :: chunks =>
     match size.toNat?, Hex.decodeTok dg, chunks.mapM Hex.decodeTok with
     | some size, some dg, some cs =>
+      -- the driver realises H by SHA-256 only; other algorithms are judged by the oracle
+      if !(strBytes "sha256:").isPrefixOf dg then "skip" else
       match readAll Sha256.digest (v == "1") size dg [] cs with
       | .eof b => "eof " ++ Hex.encodeTok b
       | r => "err " ++ Hex.encodeTok r.relayed
